@@ -219,7 +219,11 @@ def present(rng, x, dtypes=('int', 'float32'), p_plain=.7):
                 xi = np.floor(xi / max(xi.max(), 1) * float(pick(rng, [3, 6, 12])))
             xu = xi.astype(pick(rng, [np.uint8, np.uint16, np.uint32, np.uint64]) if xi.max() < 256 else pick(rng, [np.uint16, np.uint32, np.uint64]))
             return xu, xu.astype(float), 'uint'
-        xi = xi.astype(pick(rng, [np.int64, np.int32, np.int16]))
+        dt = pick(rng, [np.int64, np.int32, np.int16])
+        if rng.random() < .4:
+            # amplitudes whose SQUARE no longer fits the type (the values themselves do)
+            xi = np.round(xi / max(np.abs(xi).max(), 1) * {np.int16: 30000, np.int32: 2000000, np.int64: 5000000000}[dt])
+        xi = xi.astype(dt)
         return xi, xi.astype(float), 'int'
     if kind == 'float32':
         x32 = np.asarray(x, dtype=np.float32)
